@@ -18,7 +18,11 @@ MANIFEST = {
          "slow_io_work_running <= (n+1)/2 and equals the number of workers on slow work; marker queued at most once; no lost "
          "wake-up.  The model is tied to the working tree by running the unmodified threadpool.c under a serialising scheduler "
          "on the same schedules (exhaustive small scopes + random) and diffing events, lock traces and abstract state after "
-         "every action; independent monitors re-check the property text on the implementation, also under real threads.",
+         "every action; independent monitors re-check the property text on the implementation, also under real threads.  "
+         "The callers' choice of work kind is tied in as well: the kind argument of every uv__work_submit( call site is "
+         "re-extracted from the tree into a Lean list (theorems caller_kinds, name_resolution_is_slow) and compared with "
+         "corpus/C08/work_kinds.txt; and with the libc resolver interposed and hanging, lookups of every flags value must "
+         "stay within (n+1)/2 pool threads while uv_queue_work / uv_fs_stat still complete.",
  "note": "Trusted: Lean kernel; pthread mutual exclusion / condvar semantics (one locked region = one atomic action; signal wakes "
          "one waiter if any; spurious wake-ups allowed); the scheduler harness's mapping of C state to the abstract dump; "
          "clang/ASan/TSan. Not modelled: weak memory, uv__threadpool_cleanup/exit message, pthread_atfork reset, io_uring fs path, "
@@ -253,6 +257,12 @@ def judge(ctx, exe, c, ci, cm, label, shrink=True):
     return True
 
 
+def mon_sig(line):
+    """`MON <signature-word> text...` -> signature (older MON lines without a signature word: harness-mon)"""
+    w = line.split()
+    return w[1] if len(w) > 1 and "-" in w[1] else "harness-mon"
+
+
 def run_one(ctx, exe, c):
     rc, res, mons, ierr = run_batch(ctx, exe, [c])
     _, ci, cm = res[0]
@@ -262,7 +272,7 @@ def run_one(ctx, exe, c):
 def fails(ctx, exe, c, sig):
     rc, ci, cm, mons, _ = run_one(ctx, exe, c)
     if mons:
-        return sig == "harness-mon"
+        return sig in ("harness-mon", mon_sig(mons[0]))
     if len(ci) != len(c) + 1:
         return sig == "harness-died"
     b = monitor(int(c[0].split()[1]), c[1:], ci[:-1], ci[-1])
@@ -302,7 +312,7 @@ def run_cases(ctx, exe, cases, label, bs=40):
                 for c in batch:
                     _, ci, cm, m1, _ = run_one(ctx, exe, c)
                     if m1:
-                        ctx.violation("tpool-harness-mon", f"C08 ({label}) monitor inside the harness: {m1[0]}",
+                        ctx.violation("tpool-" + mon_sig(m1[0]), f"C08 ({label}) monitor inside the harness: {m1[0]}",
                                       {"mode": "sched", "case": shrink_case(ctx, exe, c, "harness-mon")})
                         return False
             for c, ci, cm in res:
@@ -402,6 +412,76 @@ def gen_exhaustive(ctx, n, L, items, cancels, kinds, spur):
     return states, edges, [[f"cfg {n} {L}"] + p for p in path_cover(edges)]
 
 
+
+# ----------------------------------------------------------------------------- Tie A: callers' work kinds
+KIND_FILES = ["src/unix/fs.c", "src/unix/getaddrinfo.c", "src/unix/getnameinfo.c", "src/random.c", "src/threadpool.c"]
+KIND_CONST = {"UV__WORK_CPU": "cpu", "UV__WORK_FAST_IO": "fast", "UV__WORK_SLOW_IO": "slow"}
+GEN_KINDS = LEAN / "UvModel/Generated/C08Kinds.lean"
+
+
+def extract_work_kinds():
+    """every `uv__work_submit(` call site in /repo/src: (file, work function, kind argument expression)"""
+    out = []
+    for f in KIND_FILES:
+        p = REPO / f
+        if not p.exists():
+            out.append((f, "<file missing>", "?"))
+            continue
+        txt = re.sub(r"/\*.*?\*/", " ", p.read_text(), flags=re.S).replace("\\\n", " ")
+        for m in re.finditer(r"\buv__work_submit\s*\(", txt):
+            i, depth, args, cur = m.end(), 1, [], ""
+            while i < len(txt) and depth > 0:
+                ch = txt[i]
+                if ch == "(":
+                    depth += 1
+                elif ch == ")":
+                    depth -= 1
+                    if depth == 0:
+                        break
+                if ch == "," and depth == 1:
+                    args.append(cur); cur = ""
+                else:
+                    cur += ch
+                i += 1
+            args.append(cur)
+            args = [" ".join(a.split()) for a in args]
+            if len(args) != 5 or args[0].startswith("uv_loop_t"):
+                continue                      # the definition itself
+            out.append((f, args[3], args[2]))
+    return out
+
+
+def gen_kinds_lean(sites):
+    def kexpr(e):
+        return f".const .{KIND_CONST[e]}" if e in KIND_CONST else ".other " + json.dumps(e)
+    body = ",\n   ".join(f"({json.dumps(f)}, {json.dumps(w)}, {kexpr(e)})" for f, w, e in sites)
+    return ("import UvModel.Tpool\n"
+            "/-! GENERATED by checks/c08.py from the `uv__work_submit(` call sites of the working tree — do not edit.\n"
+            "    (file, work function, kind argument); a kind that is not a plain constant becomes `.other <expr>`. -/\n"
+            "namespace UvModel.Tpool.Generated\n\n"
+            "inductive KindExpr | const (k : Kind) | other (src : String)\n  deriving DecidableEq, Repr\n\n"
+            "def callerKinds : List (String × String × KindExpr) :=\n  [" + body + "]\n\n"
+            "end UvModel.Tpool.Generated\n")
+
+
+def tie_a_kinds(ctx):
+    """regenerate the Lean list (only when it changed) and compare with the committed table; returns (ok, restore)"""
+    sites = extract_work_kinds()
+    new = gen_kinds_lean(sites)
+    old = GEN_KINDS.read_text() if GEN_KINDS.exists() else None
+    if new != old:
+        GEN_KINDS.write_text(new)
+    table = [tuple(l.split(None, 2)) for l in (VERIF / "corpus/C08/work_kinds.txt").read_text().splitlines()
+             if l.strip() and not l.startswith("#")]
+    ok = True
+    if sorted(table) != sorted(sites):
+        ok = False
+        diff = sorted(set(sites) ^ set(table))
+        ctx.broken.append(("tie-A", "callers' work kinds (uv__work_submit call sites) differ from corpus/C08/work_kinds.txt",
+                           "; ".join(" ".join(d) for d in diff)))
+    ctx.notes["work_kind_sites"] = [" ".join(x) for x in sites]
+    return ok, (old if new != old else None)
+
 # ----------------------------------------------------------------------------- secondary: real threads
 def run_real(ctx, exe, rng, runs, label, search=False):
     for _ in range(runs):
@@ -428,6 +508,41 @@ def run_real(ctx, exe, rng, runs, label, search=False):
     return True
 
 
+
+NI_FLAGS = [0, 1, 2, 8, 16, 4, 1 | 2, 2 | 16, 2 | 8, 1 | 16]                 # NUMERICHOST=1 NUMERICSERV=2 NOFQDN=4 NAMEREQD=8 DGRAM=16
+AI_FLAGS = [0, 1, 2, 4, 0x400, 4 | 0x400, 1 | 4, 0x20]                        # PASSIVE CANONNAME NUMERICHOST NUMERICSERV ADDRCONFIG
+
+
+def run_hang(ctx, exe, rng, label, every_n=False):
+    """resolver calls hang (interposed in the harness): lookups of every flags value must stay within the slow cap and
+    must not starve uv_queue_work / uv_fs_stat"""
+    jobs = []
+    for which, flagset in ((0, NI_FLAGS), (1, AI_FLAGS)):
+        for fl in flagset:
+            for n in ([1, 2, 3, 4, 8] if every_n else [rng.choice([2, 2, 3, 4, 8])]):
+                jobs.append((which, fl, n))
+    jobs.append((0, 0, 1))
+    def one(j):
+        return j, ctx.run(exe, ["hang", j[0], j[1]], env={"UV_THREADPOOL_SIZE": str(j[2])}, timeout=90)
+    with ThreadPoolExecutor(8) as ex:
+        res = list(ex.map(one, jobs))
+    for (which, fl, n), (rc, out, err) in res:
+        ctx.count()
+        replay = {"mode": "hang", "which": which, "flags": fl, "threads": n}
+        viol = [l for l in out.splitlines() if l.startswith("VIOLATION")]
+        if viol:
+            ctx.violation("tpool-hang-" + viol[0].split()[1], f"C08 ({label}, hanging resolver, n={n}): {viol[0]}", replay)
+            return False
+        last = out.strip().splitlines()[-1] if out.strip() else ""
+        if rc != 0 or not last.startswith("ok"):
+            ctx.violation("tpool-hang-crash", f"C08 ({label}, hanging resolver, n={n}, {'getnameinfo' if which == 0 else 'getaddrinfo'} "
+                          f"flags={fl}): exit {rc}: {(err or out)[-600:]}", replay)
+            return False
+        ctx.validated()
+        ctx.nontrivial(f"hang-{which}-{fl}-{n}")
+    ctx.notes[f"{label}_runs"] = len(jobs)
+    return True
+
 # ----------------------------------------------------------------------------- main
 def run(ctx):
     ctx.trusted += ["pthread mutual exclusion and condition-variable semantics (locked region = atomic action)",
@@ -436,7 +551,12 @@ def run(ctx):
     ctx.assumptions += ["sequentially consistent view of mutex-protected data (weak memory not modelled)",
                         "uv_cancel is called on the loop's thread and not after the request's callback",
                         "uv_async_send wakes the loop (C09)"]
-    lean_ok = ctx.require_lean(["UvModel.Props.C08"])
+    kinds_ok, restore = tie_a_kinds(ctx)
+    try:
+        lean_ok = ctx.require_lean(["UvModel.Props.C08"]) and kinds_ok
+    finally:
+        if restore is not None and os.environ.get("VERIF_REPO"):
+            GEN_KINDS.write_text(restore)     # a scratch tree must not leave its generated list in the shared library
     exe = ctx.harness("c08_sched", ["harness/c08_sched.c"], link_lib=True)
     real = ctx.harness("c08_real", ["harness/c08_real.c"], link_lib=True)
     real_tsan = ctx.harness("c08_real_tsan", ["harness/c08_real.c"], variant="tsan", link_lib=True)
@@ -444,7 +564,14 @@ def run(ctx):
 
     if ctx.replay:
         obj = json.loads(Path(ctx.replay).read_text())["replay"]
-        if obj.get("mode") == "real":
+        if obj.get("mode") == "hang":
+            if real:
+                rc, out, err = ctx.run(real, ["hang", obj["which"], obj["flags"]], env={"UV_THREADPOOL_SIZE": str(obj["threads"])}, timeout=90)
+                print(out[-2000:], err[-2000:])
+                viol = [l for l in out.splitlines() if l.startswith("VIOLATION")]
+                if viol or rc != 0:
+                    ctx.violation("tpool-hang-replay", f"C08 replay (hanging resolver): {viol[:1] or rc}", obj)
+        elif obj.get("mode") == "real":
             for x in (real, real_tsan):
                 if x:
                     rc, out, err = ctx.run(x, [obj["loops"], obj["per"], obj["seed"]],
@@ -460,7 +587,7 @@ def run(ctx):
                 print(f"{a:14s} {b}")
             print(ierr[-2000:])
             if mons:
-                ctx.violation("tpool-harness-mon", f"C08 replay: {mons[0]}", obj)
+                ctx.violation("tpool-" + mon_sig(mons[0]), f"C08 replay: {mons[0]}", obj)
             else:
                 judge(ctx, exe, c, ci, cm, "replay", shrink=False)
         return
@@ -511,9 +638,14 @@ def run(ctx):
                 for i in range(0, len(cases), 40):
                     batch = cases[i:i + 40]
                     rc, res, mons, ierr = run_batch(ctx, exe, batch)
+                    if mons:      # the harness's own monitor fired somewhere in the batch: find the case
+                        for c in batch:
+                            if run_one(ctx, exe, c)[3]:
+                                res = [(c, [], [])]
+                                break
                     for c, ci, cm in res:
                         ctx.count()
-                        bad = ("harness-mon", mons[0]) if mons else None
+                        bad = (mon_sig(mons[0]), mons[0]) if mons else None
                         if bad is None and len(ci) != len(c) + 1:
                             bad = ("harness-died", "harness died: " + ierr[-300:]) if rc != 0 else None
                         elif bad is None:
@@ -533,6 +665,8 @@ def run(ctx):
         real_ok = run_real(ctx, real, rng.fork(), ctx.scale(6, 40), "real_asan")
     if real_ok and real_tsan is not None and not ctx.violations:
         real_ok = run_real(ctx, real_tsan, rng.fork(), ctx.scale(3, 20), "real_tsan")
+    if real_ok and real is not None and not ctx.violations:
+        real_ok = run_hang(ctx, real, rng.fork(), "hang", every_n=need_search or not ctx.quick)
     if need_search:
         if not found and not ctx.violations:
             for x, lab in ((real_tsan, "search_tsan"), (real, "search_asan")):
